@@ -241,10 +241,7 @@ type leafOpts struct {
 // addLeaf adds a leaf to sc and returns its name and type.
 func (g *gen) addLeaf(sc *scope, o leafOpts) (string, *typ) {
 	g.budget--
-	name := o.name
-	if name == "" {
-		name = g.nodeName(sc, "leaf")
-	}
+	name := g.leafName(sc, o)
 	sc.take(name)
 	st := sc.st.add("leaf", name)
 	t := g.drawType(typeCtx{m: sc.m, sc: sc, key: o.key, leafNm: name}, "leaf-type")
@@ -363,6 +360,7 @@ func (g *gen) addList(sc *scope) {
 	st := sc.st.add("list", name)
 	c := sc.child(st, name, sc.m)
 	c.list = true
+	c.kinfo = &keyInfo{}
 	unkeyed := !sc.config && !sc.inGrp && g.chance(30, "list-unkeyed")
 	if unkeyed {
 		g.feat("list-unkeyed")
@@ -418,7 +416,7 @@ func (g *gen) addChoice(sc *scope) {
 	st := sc.st.add("choice", name)
 	caseNames := map[string]bool{}
 	ch := &scope{m: sc.m, st: st, names: sc.names, camel: sc.camel, dataPath: sc.dataPath, inGrp: sc.inGrp, config: sc.config,
-		depth: sc.depth, inChoice: true, list: false, underCh: sc.underCh, inAug: sc.inAug}
+		depth: sc.depth, inChoice: true, list: false, underCh: sc.underCh, inAug: sc.inAug, kinfo: sc.kinfo}
 	if !sc.inGrp {
 		ch.schPath = append(append([]seg{}, sc.schPath...), seg{sc.m, name})
 	}
@@ -443,7 +441,7 @@ func (g *gen) addChoice(sc *scope) {
 		}
 		cst := st.add("case", cn)
 		cs := &scope{m: sc.m, st: cst, names: sc.names, camel: sc.camel, dataPath: sc.dataPath, inGrp: sc.inGrp, config: sc.config,
-			depth: sc.depth, inChoice: true, underCh: sc.underCh, inAug: sc.inAug}
+			depth: sc.depth, inChoice: true, underCh: sc.underCh, inAug: sc.inAug, kinfo: sc.kinfo}
 		if !sc.inGrp {
 			cs.schPath = append(append([]seg{}, ch.schPath...), seg{sc.m, cn})
 		}
@@ -537,7 +535,7 @@ func (g *gen) addAugment(m *mod) {
 	}
 	st := m.top.add("augment", p.String())
 	sc := &scope{m: m, st: st, names: a.sc.names, camel: a.sc.camel, dataPath: a.sc.dataPath, schPath: a.sc.schPath,
-		config: a.sc.config, depth: a.sc.depth, list: a.sc.list, underCh: a.sc.underCh, inChoice: a.sc.inChoice, inAug: true}
+		config: a.sc.config, depth: a.sc.depth, list: a.sc.list, underCh: a.sc.underCh, inChoice: a.sc.inChoice, inAug: true, kinfo: a.sc.kinfo}
 	saved := len(g.augs)
 	if a.kind == "choice" {
 		cn := fmt.Sprintf("aug-case-%s-%d", m.prefix, len(m.top.subs))
